@@ -44,6 +44,12 @@ impl Format for ItemEnum {
                 if let Some(generics) = &self.generics {
                     generics.format(formatted_code, formatter)?;
                 }
+                // Format the `WhereClause`, if any (same layout as for structs)
+                if let Some(where_clause) = &self.where_clause_opt {
+                    writeln!(formatted_code)?;
+                    where_clause.format(formatted_code, formatter)?;
+                    formatter.shape.code_line.update_where_clause(true);
+                }
 
                 let fields = self.fields.get();
 
@@ -132,8 +138,17 @@ impl CurlyBrace for ItemEnum {
         formatter: &mut Formatter,
     ) -> Result<(), FormatterError> {
         let open_brace = Delimiter::Brace.as_open_char();
-        // Add opening brace to the same line
-        write!(line, " {open_brace}")?;
+        match formatter.shape.code_line.has_where_clause {
+            // The where clause ends with a newline: the brace starts the next line
+            true => {
+                write!(line, "{open_brace}")?;
+                formatter.shape.code_line.update_where_clause(false);
+            }
+            // Add opening brace to the same line
+            false => {
+                write!(line, " {open_brace}")?;
+            }
+        }
         formatter.indent();
 
         Ok(())
